@@ -16,7 +16,7 @@ Your task: make ONE small source change (a few lines, in the repository's own so
 Deliverables (write them into {wt}/SEED/):
 1. patch.diff — the change as a unified diff produced by `git -C {wt} diff -- python` (only the source change).
 2. A demonstration: a small script (SEED/demo.py) that prints 'PROPERTY VIOLATED' and exits non-zero with your change applied and prints 'PROPERTY HOLDS' and exits 0 without it. It must exercise the real changed code (driving the real classes directly with small hand-built inputs, stubs or monkey-patched fault injection is fine; it need not be an end-to-end run). Use temporary directories and clean up. Keep its run time under about 2 minutes.
-3. notes.md — which clause of the property is broken, what exactly is needed for it to manifest, and the exact commands you ran (with and without the change, e.g. using `git stash -- python` / `git stash pop`) and their outcomes.
+3. notes.md — which clause of the property is broken, what exactly is needed for it to manifest, and the exact commands you ran (with and without the change; to run without it use `git apply -R SEED/patch.diff` and re-apply with `git apply SEED/patch.diff` - do NOT use `git stash`, the stash is shared between worktrees) and their outcomes.
 
 Also confirm the relevant existing tests still pass with your change: run `cd {wt} && PYTHONPATH={wt}/python /venv/bin/python -m pytest -q -p no:cacheprovider --timeout=900 {tests}` and report the results honestly (some of these are slow; say which you ran).
 
